@@ -122,7 +122,7 @@ def run_binding(sc):
             raised = None
             node = None
             try:
-                up = ch['nodes'][-1] if ch else None
+                up = ch['nodes'][st.get('parent', -1)] if ch else None
                 if kind == 'stream':
                     node = Stream(**kw)
                 elif kind == 'map':
@@ -208,6 +208,12 @@ def run_binding(sc):
                                    '%s: nodes of one pipeline disagree on asynchronous: %r' % (where, [nd.asynchronous for nd in ch['nodes']]), node_op=kind))
                 return
             if n_mode is True:
+                lazy = [type(nd).__name__ for nd in ch['nodes'] if nd.asynchronous is not True]
+                if lazy:
+                    V.append(Violation('C19', 'C19.split', len(rec.events) - 1,
+                                       '%s: the pipeline is asynchronous but %r did not inherit the mode (asynchronous=%r): emit at that node would block'
+                                       % (where, lazy, [nd.asynchronous for nd in ch['nodes']]), node_op=kind))
+                    return
                 if node.loop is not None and node.loop is not caller and n_loop == 'caller':
                     V.append(Violation('C19', 'C19.async_off_loop', len(rec.events) - 1,
                                        '%s: declared asynchronous but bound to %s instead of the caller\'s current loop'
@@ -341,13 +347,16 @@ def generate(prop, rng, seed, index, tier):
         st = {'chain': c, 'kind': first}
         st.update(kwargs(first, True))
         steps.append(st)
+        kinds = [first]
         for _ in range(length):
             kind = rng.choice(PLAIN + LOOPY + ['map'])
             st = {'chain': c, 'kind': kind}
+            # trees, not only chains: a new node may extend any earlier non-sink node of the pipeline
+            parents = [i for i, k in enumerate(kinds) if k != 'sink']
+            st['parent'] = parents[-1] if rng.random() < 0.6 else rng.choice(parents)
             st.update(kwargs(kind, False))
             steps.append(st)
-            if kind in ('sink', 'sink_needs'):
-                break
+            kinds.append(kind)
     # interleave the chains' constructors
     order = []
     per = {}
@@ -367,11 +376,16 @@ def shrink_candidates(sc):
         ch = steps[i]['chain']
         # only the last step of a chain, or a whole chain, can go
         later = [s for s in steps[i + 1:] if s['chain'] == ch]
-        if not later:
+        pos = len([s for s in steps[:i] if s['chain'] == ch])      # index of this node within its pipeline
+        if not any(s.get('parent', -1) in (pos, -1) and True for s in later) or not later:
             c = clone()
             del c['steps'][i]
-            if c['steps']:
-                yield c
+            for s2 in c['steps'][i:]:
+                if s2['chain'] == ch and s2.get('parent', 0) > pos:
+                    s2['parent'] -= 1
+            if c['steps'] and pos > 0 or not later:
+                if c['steps']:
+                    yield c
     for ch in set(s['chain'] for s in steps):
         c = clone()
         c['steps'] = [s for s in steps if s['chain'] != ch]
